@@ -1582,12 +1582,16 @@ func Exec(run *Run, ar *arena.Arena, va *arena.Vars, g *Globals, sites *SiteTabl
 	}
 
 	// ---- entropy device
-	if run.Entropy.Stream == nil && run.Entropy.Hex != "" {
-		s, err := hex.DecodeString(run.Entropy.Hex)
-		if err != nil {
+	if run.Entropy.Stream == nil && (run.Entropy.Hex != "" || run.Entropy.Rep != nil) {
+		if err := run.Entropy.Expand(); err != nil {
 			return Result{Incon: Inconclusive{"bad entropy hex"}, Stats: x.St}
 		}
-		run.Entropy.Stream = s
+	}
+	if run.Entropy.Rep != nil {
+		x.St.Faults["entropy_long_run_of_rejected_blocks"]++
+		if run.Entropy.Rep.Count >= 1<<16 {
+			x.St.Probes["rejection_run_of_65536_blocks_or_more"]++
+		}
 	}
 	newDev := func() {
 		x.rq, x.wide, x.pool, x.randHist = nil, false, false, nil
